@@ -693,6 +693,22 @@ def translate_assembly(tr, igm_tree):
     for s in stmts:
         if not s.startswith(allowed_prefix):
             bail(fn, f"calculate_thermo_cont: statement `{s[:70]}`")
+    for st in strip_doc(fn):
+        if isinstance(st, ast.If):
+            test = ast.unparse(st.test)
+            body = [b for b in st.body if not (isinstance(b, ast.Expr) and isinstance(b.value, ast.Call)
+                                               and ast.unparse(b.value.func).startswith("logger."))]
+            if test == "species.n_atoms == 0":
+                ok = len(body) == 1 and isinstance(body[0], ast.Return) and body[0].value is None and not st.orelse
+            elif test == "species.frequencies is None and species.n_atoms > 1":
+                ok = len(body) == 1 and isinstance(body[0], ast.Raise) and ast.unparse(body[0].exc.func) == "ValueError" and not st.orelse
+            else:
+                ok = False
+            if not ok:
+                bail(st, f"calculate_thermo_cont: guard `if {test}` changed")
+    for pre, rhs in (("H.method_str = ", "_thermo_method_str(species, **kwargs)"), ("G.method_str = ", "H.method_str")):
+        if [s_ for s_ in stmts if s_.startswith(pre)] != [pre + rhs]:
+            bail(fn, f"calculate_thermo_cont: `{pre}...` changed")
     order = [s.split(" ")[0] for s in stmts if s.startswith(("S = ", "U = ", "H = ", "G = "))]
     if order != ["S", "U", "H", "G"]:
         bail(fn, "calculate_thermo_cont: order of S, U, H, G")
